@@ -379,6 +379,30 @@ func TestEnumBoundary(t *testing.T) {
 			}
 		}
 	}
+	// bounds at the corner cases of Bound.ToPolygon: flat on one axis, inverted on one or both axes
+	for _, a := range []orb.Point{{0, 0}, {-3, 7}, {-maxCoord, -maxCoord}, {maxCoord - 5, -maxCoord}} {
+		for _, d := range []orb.Point{{0, 5}, {5, 0}, {-5, 5}, {5, -5}, {-5, -5}, {0, -5}, {-5, 0}, {1, 1}} {
+			bx, by := a[0]+d[0], a[1]+d[1]
+			if bx > maxCoord || by > maxCoord || bx < -maxCoord || by < -maxCoord {
+				bx, by = a[0]-d[0], a[1]-d[1]
+			}
+			if by == a[1] && !trailingDupWorks() {
+				continue // zero height: fourth corner equals the first, the known trailing-duplicate family
+			}
+			cases = append(cases, oneFeature(Feat{Geom: gen.G{V: orb.Bound{Min: a, Max: orb.Point{bx, by}}}}))
+		}
+	}
+	// unclosed rings whose last vertex agrees with the first in exactly one coordinate, and closed rings of
+	// exactly four points (the corner cases of Ring.Closed), near the origin and far from it
+	for _, o := range []float64{0, 1 << 27, -maxCoord} {
+		a := orb.Point{o, o}
+		cases = append(cases, oneFeature(Feat{Geom: gen.G{V: orb.Ring{a, {o + 4, o}, {o + 4, o + 4}, {o, o + 4}}}}))         // last.x == first.x
+		cases = append(cases, oneFeature(Feat{Geom: gen.G{V: orb.Ring{a, {o + 4, o + 1}, {o + 4, o + 4}, {o + 2, o}}}}))     // last.y == first.y
+		cases = append(cases, oneFeature(Feat{Geom: gen.G{V: orb.Polygon{{a, {o + 4, o}, {o, o + 4}, a}}}}))                 // closed, 4 points
+		cases = append(cases, oneFeature(Feat{Geom: gen.G{V: orb.Polygon{{a, {o + 4, o}, {o, o + 4}}}}}))                    // 3 points, unclosed
+		cases = append(cases, oneFeature(Feat{Geom: gen.G{V: orb.Polygon{{a, {o + 4, o}, {o + 4, o + 4}, {o + 1, o + 1}}}}})) // 4 points, unclosed, last one unit from first
+		cases = append(cases, oneFeature(Feat{Geom: gen.G{V: orb.MultiPolygon{{{a, {o + 4, o}, {o, o + 4}}}, {{{o + 9, o}, {o + 13, o}, {o + 9, o + 4}, {o + 9, o + 1}}}}}}))
+	}
 	// the largest triangle and the largest square of the domain, both windings as outer ring and hole
 	big := orb.Ring{{-maxCoord, -maxCoord}, {maxCoord, -maxCoord}, {maxCoord, maxCoord}, {-maxCoord, maxCoord}, {-maxCoord, -maxCoord}}
 	tri := orb.Ring{{-maxCoord + 1, -maxCoord + 1}, {maxCoord - 1, -maxCoord + 1}, {0, maxCoord - 1}, {-maxCoord + 1, -maxCoord + 1}}
